@@ -20,6 +20,8 @@ structure MCtx where
   v : Nat
   /-- the handle / iterator is typed (`AnyVecPtr::Element` is a concrete type) -/
   typed : Bool := false
+  /-- the vector elements are cloned from (`AnyVecRaw::clone`: `self`; `v` is the new vector) -/
+  src : Nat := 0
   /-- `value.move_into(slot)` of the by-value argument -/
   moveIn : Nat → WM Unit := fun _ => WM.ub "kernel: no value to move in"
   /-- `self.op.consume()` -/
@@ -46,6 +48,10 @@ def runCmd (c : MCtx) : MCmd → WM Unit
   | .consume => c.consume
   | .reserve n => WM.onUnwind (vecOp c.v (fun s => s.reserve n)) c.cleanup
   | .writeLoop _ _ => WM.ub "kernel: the write loop is run by the caller of the command list"
+  | .cloneEmpty => WM.ub "kernel: the new vector is created by the caller of the command list"
+  | .cloneFn s d n => if s = d then cloneLoop c.src c.v s n else WM.ub "kernel: clone between different positions"
+  | .cloneEach s d n => if s = d then cloneLoop c.src c.v s n else WM.ub "kernel: clone between different positions"
+  | .dropEach s n => dropLoop c.v true s n
   | .panic m => WM.onUnwind (WM.panic m) c.cleanup
 
 def runCmds (c : MCtx) : List MCmd → WM Unit
